@@ -47,9 +47,32 @@ _CTYPE_FN = {'isalnum': 8, 'isalpha': 1024, 'isdigit': 2048, 'isxdigit': 4096, '
              'islower': 512, 'isprint': 16384, 'isgraph': 32768, 'isblank': 1, 'iscntrl': 2}
 
 
+_TRK = []      # stack of read sets {id(buffer): [lowest index read, highest index read, buffer]} of the memoised calls in progress
+
+
+class _Buf(list):
+    """character buffer that reports which of its elements are read (for the read-set memo of CMachine.call_fn)"""
+    __slots__ = ()
+
+    def __getitem__(self, i):
+        if _TRK and isinstance(i, int):
+            _note(self, i, i)
+        return list.__getitem__(self, i)
+
+
+def _note(buf, lo, hi):
+    d = _TRK[-1]
+    e = d.get(id(buf))
+    if e is None:
+        d[id(buf)] = [lo, hi, buf]
+    else:
+        if lo < e[0]: e[0] = lo
+        if hi > e[1]: e[1] = hi
+
+
 def cbuf(bs, label='buf'):
     """bytes -> char * to a NUL-terminated array of (signed) chars"""
-    return _Ref(ElemPlace(Arr([b - 256 if b >= 128 else b for b in bs] + [0], label), 0))
+    return _Ref(ElemPlace(Arr(_Buf([b - 256 if b >= 128 else b for b in bs] + [0]), label), 0))
 
 
 def cstr(v):
@@ -61,10 +84,17 @@ def cstr(v):
             return None
     if isinstance(v, _Ref) and isinstance(v.place, ElemPlace) and isinstance(v.place.arr, Arr) and isinstance(v.place.i, int):
         out = []
-        for e in v.place.arr.elems[v.place.i:]:
+        el = v.place.arr.elems
+        i0 = v.place.i
+        if i0 < 0:
+            return None
+        for k in range(i0, len(el)):
+            e = list.__getitem__(el, k)
             if not isinstance(e, int):
                 return None
             if e == 0:
+                if _TRK and isinstance(el, _Buf):
+                    _note(el, i0, k)
                 return out
             out.append(e)
     return None
@@ -105,27 +135,49 @@ def _cmp(x, y):
 
 
 def _m_strcmp(it, ctx, n, a):
-    x, y = cstr(a[0]), cstr(a[1]); _need('strcmp', x, y)
-    return _cmp(x, y)
+    return _walk2('strcmp', a, None)
+
+
+def _walk2(name, a, k, fold=False):
+    """compare two strings the way strncmp does, reading no further than the first difference / NUL / k characters"""
+    def at(v, j):
+        if isinstance(v, str):
+            return (ord(v[j]) & 255) if j < len(v) else 0
+        if isinstance(v, _Ref) and isinstance(v.place, ElemPlace) and isinstance(v.place.arr, Arr) and isinstance(v.place.i, int):
+            el = v.place.arr.elems
+            i = v.place.i + j
+            if 0 <= i < len(el):
+                e = el[i]           # (noted by _Buf)
+                if isinstance(e, int):
+                    return e & 255
+        raise AnalysisBroken('%s() on an operand that is not a concrete string' % name)
+    j = 0
+    while k is None or j < k:
+        x, y = at(a[0], j), at(a[1], j)
+        if fold:
+            x, y = _lower(x), _lower(y)
+        if x != y:
+            return (x > y) - (x < y)
+        if x == 0:
+            return 0
+        j += 1
+    return 0
 
 
 def _m_strncmp(it, ctx, n, a):
-    x, y = cstr(a[0]), cstr(a[1]); _need('strncmp', x, y)
     if not isinstance(a[2], int):
         raise AnalysisBroken('strncmp() with a length that is not concrete')
-    return _cmp(x[:a[2]], y[:a[2]])
+    return _walk2('strncmp', a, a[2])
 
 
 def _m_strcasecmp(it, ctx, n, a):
-    x, y = cstr(a[0]), cstr(a[1]); _need('strcasecmp', x, y)
-    return _cmp([_lower(c) for c in x], [_lower(c) for c in y])
+    return _walk2('strcasecmp', a, None, True)
 
 
 def _m_strncasecmp(it, ctx, n, a):
-    x, y = cstr(a[0]), cstr(a[1]); _need('strncasecmp', x, y)
     if not isinstance(a[2], int):
         raise AnalysisBroken('strncasecmp() with a length that is not concrete')
-    return _cmp([_lower(c) for c in x[:a[2]]], [_lower(c) for c in y[:a[2]]])
+    return _walk2('strncasecmp', a, a[2], True)
 
 
 def _m_memcmp(it, ctx, n, a):
@@ -271,8 +323,6 @@ class CMachine(PInterp):
             raise AnalysisBroken('call of %s() at %s:%d can neither be followed nor is it modelled' % (name, self.unit.name, n.line))
         return super().e_CallExpr(n, env)
 
-    # functions of integers that write nothing but their own locals and call only functions of that kind (is_ident1/is_ident2 with
-    # their range tables) are evaluated once per argument tuple
     def _is_pure(self, unit, fn, depth=0):
         k = (unit.name, fn.name)
         if k in self._pure:
@@ -313,16 +363,66 @@ class CMachine(PInterp):
         return ok
 
     def call_fn(self, unit, fn, args):
-        if args and all(isinstance(a, int) and not isinstance(a, bool) for a in args) and self._is_pure(unit, fn):
-            k = (unit.name, fn.name, tuple(args))
-            if k in self._memo:
-                return self._memo[k]
-            nd = len(self.ctx.decisions), self.ctx.di
+        """read-set memo: a function that writes nothing but its own locals (and calls only such functions and modelled libc
+        primitives) is deterministic in its integer arguments and in the characters it reads through its pointer arguments;
+        a later call with the same integers and the same characters at the same offsets from its pointers has the same result"""
+        if not args or not self._is_pure(unit, fn):
+            return super().call_fn(unit, fn, args)
+        ptrs = []
+        for i, a in enumerate(args):
+            if isinstance(a, bool) or not isinstance(a, (int, str)):
+                if isinstance(a, _Ref) and isinstance(a.place, ElemPlace) and isinstance(a.place.arr, Arr) and isinstance(a.place.arr.elems, _Buf) and isinstance(a.place.i, int):
+                    ptrs.append(i)
+                else:
+                    return super().call_fn(unit, fn, args)
+        bufs = [args[i].place.arr.elems for i in ptrs]
+        if len(set(id(b) for b in bufs)) != len(bufs):
+            return super().call_fn(unit, fn, args)      # two pointers into one buffer: ranges are not attributed
+        base = (unit.name, fn.name, tuple(a if not isinstance(a, _Ref) else None for a in args))
+        ent = self._memo.get(base)
+        if ent is not None:
+            for shape, table in ent.items():
+                key = []
+                for (lo, hi), i in zip(shape, ptrs):
+                    b, p0 = args[i].place.arr.elems, args[i].place.i
+                    if lo is None:
+                        key.append(None)
+                    elif p0 + lo < 0 or p0 + hi >= len(b):
+                        key = None
+                        break
+                    else:
+                        key.append(tuple(list.__getitem__(b, k) for k in range(p0 + lo, p0 + hi + 1)))
+                if key is None:
+                    continue
+                r = table.get(tuple(key))
+                if r is not None:
+                    if _TRK:
+                        for (lo, hi), i in zip(shape, ptrs):
+                            if lo is not None:
+                                _note(args[i].place.arr.elems, args[i].place.i + lo, args[i].place.i + hi)
+                    return r[0]
+        nd = len(self.ctx.decisions), self.ctx.di, len(self.ctx.events)
+        _TRK.append({})
+        try:
             r = super().call_fn(unit, fn, args)
-            if isinstance(r, int) and (len(self.ctx.decisions), self.ctx.di) == nd:
-                self._memo[k] = r
-            return r
-        return super().call_fn(unit, fn, args)
+        finally:
+            reads = _TRK.pop()
+            if _TRK:
+                for lo, hi, b in reads.values():
+                    _note(b, lo, hi)
+        if isinstance(r, int) and not isinstance(r, bool) and (len(self.ctx.decisions), self.ctx.di, len(self.ctx.events)) == nd \
+                and all(id(b) in set(id(x) for x in bufs) for _, _, b in reads.values()):
+            shape, key = [], []
+            for i in ptrs:
+                b, p0 = args[i].place.arr.elems, args[i].place.i
+                e = reads.get(id(b))
+                if e is None:
+                    shape.append((None, None)); key.append(None)
+                else:
+                    shape.append((e[0] - p0, e[1] - p0))
+                    key.append(tuple(list.__getitem__(b, k) for k in range(e[0], e[1] + 1)))
+            self._memo.setdefault(base, {}).setdefault(tuple(shape), {})[tuple(key)] = (r,)
+        return r
 
 
 # ------------------------------------------------------------------------------------------------ the tokenizer ---
